@@ -3,11 +3,15 @@
    stream-list identifiers are allocated fresh and a list is never modified after its allocation, the published
    list identifier and every list identifier an agent works on are allocated ones - so the pointer comparison
    that re-validates a scan ("the list is still the one I read") compares the identities of two unmodified
-   lists, and the list a publishing compare-exchange installs is the list it read plus/minus one stream.
+   lists, and the list a publishing compare-exchange installs is the list it read plus/minus one stream;
+   C16_scan_starts_from_published_list / C16_scan_result_is_validated, for every state: the scan of the stream
+   list (get_max_diff) starts from the published list and remembers its identity; its last step hands the result
+   to the caller only if the published identity is still that one, otherwise the scan starts again - a writer
+   never acts on a distance computed from a list that was replaced while it was scanning.
    Not proved: that no freed object is dereferenced (epoch invariant I10); the model flags such accesses in
    g_bad and the correspondence compares them with the quarantine allocator of the harness. *)
 From Coq Require Import NArith List Bool.
-Require Import MQ.Arith64 MQ.Types MQ.State MQ.Model MQ.Exec MQ.Reach MQ.Ctl MQ.RecvDefs MQ.GroupStep MQ.GroupStep2 MQ.InvGroups.
+Require Import MQ.Arith64 MQ.Types MQ.State MQ.Model MQ.Exec MQ.Reach MQ.Ctl MQ.RecvDefs MQ.GroupStep MQ.GroupStep2 MQ.InvGroups MQ.ScanStep.
 Import ListNotations.
 Open Scope N_scope.
 
@@ -40,3 +44,34 @@ Example C16_witness :
   let s := reach_by c false (Start 1 (CAddStream 2) :: repeat (Step 1) 12) in
   cur (sh s) = 1 /\ ngid (sh s) = 2 /\ ggroup (sh s) 0 = [0] /\ ggroup (sh s) 1 = [0; 1].
 Proof. vm_compute. repeat split. Qed.
+
+(* ---- the pointer re-validation of a scan ---- *)
+Theorem C16_scan_starts_from_published_list : forall c me A S o,
+  micro c me A S = Some o -> a_pc A = G1 ->
+  r_g (a_r (o_a o)) = cur S /\ r_gl (a_r (o_a o)) = ggroup S (cur S) /\ r_none (a_r (o_a o)) = false /\
+  groups (o_s o) = groups S /\ cur (o_s o) = cur S.
+Proof. exact scan_starts_from_published. Qed.
+Check C16_scan_starts_from_published_list : forall c me A S o,
+  micro c me A S = Some o -> a_pc A = G1 ->
+  r_g (a_r (o_a o)) = cur S /\ r_gl (a_r (o_a o)) = ggroup S (cur S) /\ r_none (a_r (o_a o)) = false /\
+  groups (o_s o) = groups S /\ cur (o_s o) = cur S.
+Print Assumptions C16_scan_starts_from_published_list.
+
+Theorem C16_scan_result_is_validated : forall c me A S o,
+  micro c me A S = Some o -> a_pc A = G3 ->
+  o_s o = S /\ a_r (o_a o) = a_r A /\
+  ((cur S = r_g (a_r A) /\ a_pc (o_a o) = hd Idle (a_stack A) /\ a_stack (o_a o) = tl (a_stack A)) \/
+   (cur S <> r_g (a_r A) /\ a_pc (o_a o) = G1 /\ a_stack (o_a o) = a_stack A)).
+Proof. exact scan_validated. Qed.
+Check C16_scan_result_is_validated : forall c me A S o,
+  micro c me A S = Some o -> a_pc A = G3 ->
+  o_s o = S /\ a_r (o_a o) = a_r A /\
+  ((cur S = r_g (a_r A) /\ a_pc (o_a o) = hd Idle (a_stack A) /\ a_stack (o_a o) = tl (a_stack A)) \/
+   (cur S <> r_g (a_r A) /\ a_pc (o_a o) = G1 /\ a_stack (o_a o) = a_stack A)).
+Print Assumptions C16_scan_result_is_validated.
+
+Example C16_scan_witness :
+  let c := mk_cfg BCast 2 WBusy in
+  let A := mkagent RSender true true 0 0 G3 [M3pre; TSfin] empty_regs false false in
+  exists o, micro c 0 A (sh (init false)) = Some o /\ a_pc (o_a o) = M3pre.
+Proof. cbv zeta. eexists. split; [vm_compute; reflexivity|reflexivity]. Qed.
